@@ -908,3 +908,38 @@ def rule_loop_exit(ctx, prop):
         # panics / unwraps on per-file data inside the loop are the same hazard (reported, not armed)
         rep.floor("early exits from the walk loop", n, 3, cfg)
     return rep
+
+
+def rule_nodiff(ctx, prop):
+    """the diff producers answer `no difference` (Ok(None)) only through exact tests"""
+    rep = Report(prop, "R-NODIFF", "the functions that turn (old, new) into an optional diff decide `no difference` by exact "
+                                   "tests: no floating-point comparison takes part in any of their decisions")
+    for cfg, prog in ctx.programs.items():
+        fns = [f for f in prog.fns("stylua") if re.search(r"^(output_diff::|create_diff$|format_file$|format_string$)", f.path)]
+        if not rep.anchor(len(fns) >= 4, f"diff producers in the stylua crate ({len(fns)})", cfg):
+            continue
+        producers = 0
+        for f in fns:
+            ret = f.locals[0]
+            is_prod = "Option<std::vec::Vec<u8>>" in ret
+            producers += is_prod
+            floats = []
+            for b, si_, s in f.stmts():
+                if s["k"] == "assign" and s["rv"]["k"] == "binop" and s["rv"]["op"] in ("Eq", "Ne", "Lt", "Le", "Gt", "Ge"):
+                    tys = []
+                    for o in (s["rv"]["a"], s["rv"]["b"]):
+                        if is_const(o):
+                            tys.append(o.get("ty", ""))
+                        else:
+                            pl = op_place(o)
+                            tys.append(f.local_ty(pl["l"]) if not pl.get("p") else "?")
+                    if any(t in ("f32", "f64") for t in tys):
+                        floats.append((s["rv"]["op"], s))
+            rep.inst(f"{f.key} decides without floating-point comparisons", {"returns_optional_diff": is_prod}, cfg, ok=not floats)
+            for op, s in floats[:1]:
+                rep.violation(f"{f.key} float-comparison-in-diff-decision op={op}",
+                              f"{f.path} compares floating-point values ({op}): a similarity ratio rounds to 1.0 for a small "
+                              f"change in a very large file, so `--check` reports no difference (exit 0, no diff) for a file "
+                              f"that is not formatted", f.loc(s["sp"]), cfg)
+        rep.floor("functions returning an optional diff", producers, 3, cfg)
+    return rep
